@@ -13,7 +13,7 @@ PROP = dict(
                     "(split-brain proposer, lock-then-starve, laggard/round skip, partitions; placed at a drawn height so that later heights are "
                     "entered with the leftovers of earlier ones) bias the search to deep states. Not exhaustive even for n=4,f=1: the state machine cannot "
                     "be cloned for DFS. The threshold arithmetic IS exhaustive for unit validators N<=45 and all 2-/3-validator splits of N<=30."),
-        rule=("A case = validator set (n=4,f=1 with unit powers, or n in 1..7 with drawn powers, Byzantine power < N/3, often at the limit, powers "
+        rule=("A case = validator set (n=4,f=1 with unit powers, or n in 1..7 (a fifth of those cases: 8, 10, 13 or 16 validators with a step budget scaled by n^2) with drawn powers, Byzantine power < N/3, often at the limit, powers "
               "may change per height), application kind (75% chain: a value is built for one height on one parent and is valid only for a validator "
               "deciding that height whose decided chain ends with that parent, content drawn good/bad; 25% height-independent drawn predicate), "
               "1-4 heights, a profile (skeleton height drawn) and up to 300+100*heights rapid-drawn steps (deliver / duplicate / "
